@@ -298,6 +298,15 @@ let table_case (src : string) (lines : string) : string =
       (String.concat "," (List.map cell_str t.t_header))
       (String.concat ";" (List.map (fun r -> String.concat "," (List.map cell_str r)) t.t_rows))
 
+(* ---------- C16: footnotes ---------- *)
+let footnote_case (defs : string) (evs : string) : string =
+  let dl = List.map bytes_of_hex (split_on ';' defs) in
+  let el = if evs = "none" then [] else List.map bytes_of_hex (split_on ';' evs) in
+  let (links, items) = footnotes dl el in
+  let lk l = Printf.sprintf "%d.%d.%d" (int_of_z l.l_index) (int_of_z l.l_refcount) (int_of_z l.l_refindex) in
+  String.concat "," (List.map lk links) ^ "|" ^
+  String.concat ";" (List.map (fun it -> Printf.sprintf "%d:%s" (int_of_z it.i_index) (String.concat "," (List.map lk it.i_backlinks))) items)
+
 let eval (fn : string) (args : string list) : string =
   match fn, args with
   | "AstProg", [n; prog] -> let (_, _, o) = run_ast_prog (int_of_string n) prog in o
@@ -334,6 +343,23 @@ let eval (fn : string) (args : string list) : string =
      | Ok o -> hex_of_bytes o | Panic -> "PANIC" | OutOfFuel -> "FUEL")
   | "WfTree", [src; tree] -> s_of_bool (wf_tree (bytes_of_hex src) (parse_tree tree))
   | "TableTransform", [src; lines] -> table_case src lines
+  | "Footnotes", [defs; evs] -> footnote_case defs evs
+  | "BqProcess", [src; nlines] ->
+    let r = ref (new_reader (bytes_of_hex src)) in
+    for _ = 1 to int_of_string nlines do r := r_advance_line !r done;
+    (match bqProcess !r with
+     | Ok (r', b) -> let (l, p) = r_position r' in Printf.sprintf "%s@%d,%s" (s_of_bool b) (int_of_z l) (seg_str p)
+     | Panic -> "PANIC" | OutOfFuel -> "FUEL")
+  | "RefsProg", [prog] ->
+    let m = ref [] in
+    String.concat "|" (List.filter_map (fun op ->
+      let body = String.sub op 1 (String.length op - 1) in
+      match op.[0] with
+      | 'a' -> (match String.split_on_char ':' body with
+                | [l; d] -> m := refsAdd !m (bytes_of_hex l) (bytes_of_hex d); None
+                | _ -> failwith "refs op")
+      | 'q' -> Some (match refsLookup !m (bytes_of_hex body) with Some d -> "h" ^ hex_of_bytes d | None -> "n")
+      | _ -> failwith "refs op") (split_on ' ' prog))
   | "Prio", [role; d] -> prio_case role d
   | "IdsProg", [ops] -> ids_case ops
   | "Bufio", [size; limit; ops] -> bufio_case (int_of_string size) (int_of_string limit) ops
